@@ -52,6 +52,8 @@ type ExploreCfg struct {
 	// AutoSites: iterate exploration, turning every racy access site into a scheduling point, until
 	// no new racy site appears (requires Opts.Monitor).
 	AutoSites bool
+	// NoAutoSites switches off the default (AutoSites for every exploration with a bound != 0)
+	NoAutoSites bool
 }
 
 // Violation is a finding with everything needed to replay it.
@@ -222,6 +224,13 @@ func Explore(prop string, sc *Scenario, cfg ExploreCfg, res *Result) {
 	}
 	if os.Getenv("HX_NOPRUNE") != "" {
 		cfg.Prune = false // self-test: outcome counts must not depend on pruning
+	}
+	// Scheduling points at synchronisation operations cover every behaviour only of executions
+	// without data races. Every real schedule exploration therefore runs the race monitor as well and,
+	// if it sees conflicting unordered accesses, explores again with those access sites as scheduling
+	// points (the races as such are reported by C19 only).
+	if !cfg.DefaultOnly && cfg.Bound != 0 && !cfg.NoAutoSites && os.Getenv("HX_NOAUTOSITES") == "" {
+		cfg.AutoSites = true
 	}
 	sites := map[int32]bool{}
 	for k := range sc.Opts.Sites {
